@@ -22,7 +22,9 @@ INFO = {
                    "from the guards before it, with the structure invariant len(flags) = capacity; the primitive tree operations' own "
                    "arithmetic is C06's. R08-5 pass-through: set_leaves_from(index, bytes) = override_range(index, decoded leaves, no "
                    "removals); init_tree_with_leaves = fresh tree of the same depth then set_leaves_from(0, .); atomic_operation(index, "
-                   "leaves, indices) = override_range(index, decoded leaves, decoded indices), nothing masked or reordered.",
+                   "leaves, indices) = override_range(index, decoded leaves, decoded indices), nothing masked or reordered. R08-4 (shared "
+                   "with C06 R06-3/R06-8): after a batch write the in-memory trees recompute every parent of the written range on every "
+                   "level up to the root, unconditionally (no 'unchanged' shortcut), so the root reflects the whole batch.",
     "not_decided": "the resulting root and leaf values as numbers (C06), pmtree's own range write",
     "assumptions": ["structure invariants of the trees on entry: len(cached_leaves_indices) = capacity, next_index <= capacity, depth < 32",
                     "buffers are not shrunk inside loops (a loop-carried Vec keeps at least its initial length)"],
@@ -421,6 +423,14 @@ def run(ctx):
     check_pmtree(ctx, fb)
     check_nonempty_batches(ctx, fb)
     check_removal_mark(ctx, fb)
+    # R08-4 (shared with C06): the range write behind every batch recomputes all ancestors of the written range
+    from . import c06
+    from ..main import Ctx as _Ctx
+    sub = _Ctx(ctx.pid, ctx.tier)
+    c06.check_recompute(sub, fb)
+    c06.check_complete_writes(sub, fb)
+    for r in sub.results:
+        (ctx.ok if r.status == "ok" else ctx.fail)("R08-4", r.instance, r.reason, r.loc)
     old_hook = panics.ensures_hook
     n = 0
     try:
